@@ -87,6 +87,22 @@ theorem shift_neg (x : Int) (n : Nat) (hn : 0 < n) : shiftLeft x (-(n : Int)) = 
   simp only [shiftLeft, h, if_true, Int.neg_neg, Int.toNat_natCast]
   exact Int.shiftRight_eq_div_pow x n
 
+/-- sign fill: shifting a negative integer right by at least its bit length gives −1 (never 0), a non-negative one 0 -/
+theorem shift_neg_saturates (x : Int) (n : Nat) (hn : 0 < n) (hx : -(2 ^ n : Int) ≤ x) (hneg : x < 0) :
+    shiftLeft x (-(n : Int)) = -1 := by
+  rw [shift_neg x n hn]
+  have hd : (0 : Int) < 2 ^ n := Int.pow_pos (by omega)
+  have h := (Int.ediv_emod_unique (a := x) (b := (2 : Int) ^ n) (q := -1) (r := x + 2 ^ n) hd).mpr
+  exact (h ⟨by omega, by omega, by omega⟩).1
+
+theorem shift_nonneg_vanishes (x : Int) (n : Nat) (hn : 0 < n) (hx0 : 0 ≤ x) (hx : x < (2 ^ n : Int)) :
+    shiftLeft x (-(n : Int)) = 0 := by
+  rw [shift_neg x n hn]
+  exact Int.ediv_eq_zero_of_lt hx0 hx
+
+example : shiftLeft (-1) (-1) = -1 ∧ shiftLeft (-5) (-3) = -1 ∧ shiftLeft (-5) (-300) = -1 ∧ shiftLeft 5 (-300) = 0 := by
+  decide +kernel
+
 /-! ### the five roundings of a finite binary64 value `m · 2^e` (`m` the signed mantissa) -/
 
 /-- signed mantissa -/
